@@ -327,6 +327,37 @@ def components_of_foreign_refs(spec):
     return False
 
 
+def valueref_at_foreign_ref(spec):
+    """a range / SIZE constraint with a value reference as bound, written at a reference to a type that is defined in
+    another module"""
+    for m in spec.modules:
+        for name, t in m.types:
+            for n in t.walk():
+                if n.kind != 'REF':
+                    continue
+                if not any(c is not None and (c.lo_txt or c.hi_txt) for c in (n.rng, n.size)):
+                    continue
+                try:
+                    if spec.lookup(n.ref, m.name)[1] != m.name:
+                        return True
+                except KeyError:
+                    continue
+    return False
+
+
+@finding('C19', 'valueref-at-foreign-ref')
+def _c19_valueref_foreign(ctx):
+    # codecs/compiler.py: the bounds of a constraint written at a type reference are looked up in the module of the
+    # REFERENCED type ("Value 'v2' not found in module 'Split2'"), not in the module where the constraint is written
+    from . import jsonio
+    try:
+        a = jsonio.spec_dec(ctx.case['arranged'])
+        o = jsonio.spec_dec(ctx.case['spec'])
+    except Exception:
+        return False
+    return valueref_at_foreign_ref(a) or valueref_at_foreign_ref(o)
+
+
 @finding('C19', 'components-of-foreign-refs')
 def _c19_components_of_foreign(ctx):
     # codecs/compiler.py pre_process_components_of_expand_members copies the member descriptors of the
@@ -513,6 +544,38 @@ def _c07_nested_choice(ctx):
             layers, r = asn.effective_tags(ctx.spec, m.ty, n.r.mod)
             if not layers and r.base.kind == 'CHOICE' and gen.is_ext(ctx.spec, r.base, r.mod):
                 return True
+    return False
+
+
+def _raw_size(v):
+    if isinstance(v, dict):
+        return sum(_raw_size(x) for x in v.values())
+    if isinstance(v, (list, tuple)):
+        return sum(_raw_size(x) for x in v)
+    if isinstance(v, (bytes, bytearray, str)):
+        return len(v)
+    return 1
+
+
+@finding(('C01', 'C05'), 'per-open-type-16k')
+def _per_open_type_16k(ctx):
+    # per.py encode_additions / Choice.encode_additions: the open type that wraps an extension addition or a CHOICE
+    # extension alternative is written with ONE length determinant; from 16384 octets on that is a fragment header
+    # followed by all the data (X.691 11.9.3.8 requires fragments), and the CHOICE decoder then skips a wrong
+    # number of bits
+    if ctx.codec not in ('per', 'uper'):
+        return False
+    for n in ctx.vnodes():
+        if n.member is None or n.parent is None:
+            continue
+        pb = n.parent.r.base
+        in_ext = False
+        for a in (pb.ext or []):
+            for mm in (a.members if isinstance(a, asn.Group) else [a]):
+                if mm is n.member:
+                    in_ext = True
+        if in_ext and _raw_size(n.value) >= 15000:
+            return True
     return False
 
 
